@@ -239,6 +239,18 @@ def run_bfs(case):
     n += 1
     a, b = obs[-1], exp[-1]
     outcomes.add((op[0], "stop" if a == "stop" else ("err" if isinstance(a, str) else "val")))
+    if op[0] in ("addneg", "setkeep") and first_diff(obs, exp) is None:
+      # these operations leave the model state where it was, so the search merges the successor with
+      # its source: probe the REAL object here - play on for a while and add once more - so that
+      # damage done by a rejected add (or a toggled keep) cannot hide behind the merged state
+      probe = h2 + [["next"]] * 3 + [["add", "2/3", 1]] + [["next"]] * 6
+      mp, obs_p, exp_p = replay(probe, keep, zk, base)
+      if first_diff(obs_p, exp_p) is not None and first_bad is None:
+        kk = first_diff(obs_p, exp_p)
+        first_bad = bad("mixer:after-%s" % op[0], "after a rejected add / a change of keep the mixer must go on exactly "
+                        "as the statement says", {"step": kk, "op": probe[kk], "value": exp_p[kk]},
+                        {"value": obs_p[kk], "history": probe})
+        continue
     if first_diff(obs, exp) is not None:
       if first_bad is None:
         kk = first_diff(obs, exp)
